@@ -539,3 +539,70 @@ def check_parallel_windows_in_step(ctx, fi,
                    f'cuts {sorted(names)} by [{key}] are never reordered '
                    'separately')
     return n
+
+
+def check_permuted_rows_not_windowed(ctx, fi,
+                                     rule='R-PERM/permuted-row-window'):
+    """in a function that re-orders rows by a given order (a parameter
+    named like an order / permutation), `X[order[i] : order[i] + n]` with a
+    run length n that is not a constant reads the n rows that *follow*
+    order[i] in the source.  The rows that follow it in the new order are
+    order[i+1], order[i+2], ...: unless the run was established row by row
+    through the order, the window holds other rows (e.g. an empty row that
+    sits between two rows whose data happen to be adjacent)."""
+    from ..core.defuse import Expander
+    from ..core import poly as P
+    orders = {p for p in fi.params
+              if any(w in p for w in ('order', 'perm', 'shuffle'))}
+    if not orders:
+        return 0
+    cfg = cfg_of(fi)
+    rd = rd_of(fi)
+    ex = Expander(fi)
+    n = 0
+
+    def is_row(t):
+        return isinstance(t, tuple) and t and t[0] == 'sub' \
+            and isinstance(t[1], tuple) and t[1][:1] == ('param',) \
+            and t[1][1] in orders
+
+    def atoms(t):
+        if is_row(t):
+            return P.atom(('ROW',))
+        return None
+
+    for node in cfg.nodes:
+        if node.id not in rd.live or node.ast is None:
+            continue
+        roots = list(node.exprs)
+        if node.kind == 'stmt' and isinstance(node.ast, ast.Assign):
+            roots += node.ast.targets
+        for root in roots:
+            if root is None:
+                continue
+            for s_ in ast.walk(root):
+                if not (isinstance(s_, ast.Subscript) and isinstance(
+                        s_.slice, ast.Slice) and s_.slice.lower is not None
+                        and s_.slice.upper is not None):
+                    continue
+                try:
+                    lo = P.poly(ex.expand(s_.slice.lower, node.id), atoms)
+                    up = P.poly(ex.expand(s_.slice.upper, node.id), atoms)
+                except Exception:
+                    continue
+                rowm = ((('ROW',), 1),)
+                if lo.get(rowm, 0) != 1 or any(
+                        m not in ((), rowm) for m in lo):
+                    continue
+                n += 1
+                d = P._add(up, lo, -1)
+                ok = all(m == () for m in d)
+                ctx.touch(fi)
+                ctx.ob(rule, f'{fi.qual}:{unparse(s_)[:40]}', fi.loc(s_),
+                       ok, 'a window of constant length' if ok else
+                       f'`{unparse(s_)[:60]}` takes a run of rows that '
+                       'follow a re-ordered row *in the source*; the rows '
+                       'that follow it in the new order are other elements '
+                       'of the order, so the window can hold rows that do '
+                       'not belong to the run')
+    return n
